@@ -86,13 +86,21 @@ def _contexts(scenario, first, switches, granularity):
     return (2 if ok else 0), n
 
 
-@harness("C15", lemma="contexts-op", cubes={"scenario": [0, 1, 2], "first": [0, 1]}, pre=["0 <= a <= 14", "a <= b <= 14", "b <= c <= 14", "c <= d <= 14"],
-         example=dict(scenario=1, first=0, a=2, b=3, c=4, d=5), timeout=600,
+@harness("C15", lemma="contexts-op", cubes={"scenario": [0, 1, 2], "first": [0, 1]}, pre=["0 <= a <= 14", "a <= b <= 14", "b <= c <= 14"],
+         example=dict(scenario=1, first=0, a=2, b=3, c=4), timeout=600,
          bounds="2 real threads x up to 7 operations (enter own runtime / enter a runtime object shared by both threads / request / exit "
-                "/ exit by exception); every schedule with up to 4 context switches at operation granularity",
+                "/ exit by exception); every schedule with up to 3 context switches at operation granularity (thorough: 4)",
          what="each thread's requests are served by its own innermost entered runtime, whatever the other thread enters or leaves in "
               "between, including one Runtime object entered by both threads with overlapping lifetimes")
-def contexts_op(scenario: int, first: int, a: int, b: int, c: int, d: int) -> int:
+def contexts_op(scenario: int, first: int, a: int, b: int, c: int) -> int:
+    r, n = _contexts(scenario, first, (a, b, c), "op")
+    return r
+
+
+@harness("C15", lemma="contexts-op-4", cubes={"scenario": [0, 1, 2], "first": [0, 1], "a": list(range(0, 15))}, tier="thorough",
+         pre=["a <= b <= 14", "b <= c <= 14", "c <= d <= 14"], example=dict(scenario=1, first=0, a=2, b=3, c=4, d=5), timeout=900,
+         bounds="as contexts-op with every schedule of up to 4 context switches", what="as contexts-op")
+def contexts_op4(scenario: int, first: int, a: int, b: int, c: int, d: int) -> int:
     r, n = _contexts(scenario, first, (a, b, c, d), "op")
     return r
 
